@@ -494,6 +494,13 @@ func (d *dealerPart) onRegisterMsg(w *World, st *StepRec, s int, realm string, r
 		exp.must(s, fmt.Sprintf("ERROR{REGISTER req=%d option_disallowed.disclose_me}", req), errIs(wamp.ErrOptionDisallowedDiscloseMe))
 		return nil
 	}
+	switch invoke {
+	case "", "single", "first", "last", "roundrobin", "random":
+	default:
+		w.st.Label("register_unknown_policy")
+		exp.must(s, fmt.Sprintf("ERROR{REGISTER req=%d} for an unknown invocation policy", req), errIs(""))
+		return nil
+	}
 	key := subKey(realm, class, string(m.Procedure))
 	existing := d.regs[key]
 	var got *wamp.Registered
